@@ -290,7 +290,7 @@ def pools(draw, L):
             parts = [[kind, cc, enc, a, b] for kind, cc, enc, a, b, m in message_ranges(L, c)]
         entry = {"type": c.type, "data": c.data, "cc": c.cc, "enc": bool(c.enc), "encrypted_area": encrypted_area, "parts": parts, "container": None, "malformed": False}
         kind = draw(st.integers(0, 9))
-        if kind == 0:
+        if kind in (0, 4):
             # a malformed variant (one wrong size or one out-of-range value): both modes end the way they ended before
             from .. import faults
             from .common import model_for_case
@@ -402,6 +402,24 @@ def run_shard(ctx):
         @rule(i=st.integers(0, 5))
         def objs(self, i):
             self.e.step(("objs", i % len(self.e.pool)))
+
+        @rule(i=st.integers(0, 5), j=st.integers(0, 5), k=st.integers(1, 12), first_strict=st.booleans())
+        def overlap(self, i, j, k, first_strict):
+            # two decodes in different modes in flight at once, advanced alternately, the first one finished last
+            if len(self.e.open) > 2:
+                return
+            n = len(self.e.pool)
+            self.e.step(("open", i % n, "strict" if first_strict else "warn"))
+            self.e.step(("open", j % n, "warn" if first_strict else "strict"))
+            for _ in range(3):
+                if len(self.e.open) >= 2:
+                    self.e.step(("adv", len(self.e.open) - 2, k))
+                if len(self.e.open) >= 1:
+                    self.e.step(("adv", len(self.e.open) - 1, k))
+            if self.e.open:
+                self.e.step(("finish", len(self.e.open) - 1))
+            if self.e.open:
+                self.e.step(("finish", len(self.e.open) - 1))
 
         @rule(i=st.integers(0, 5))
         def split(self, i):
